@@ -511,6 +511,14 @@ where
     let state = ParserState::new(input);
 
     match f(state) {
+        // A refused call is an ordinary `Err` for `optional`, `repeat`, negative look-ahead and
+        // `or_else`, which turn it into a (shorter) success: report the limit in that case too.
+        Ok(state) if state.reached_call_limit() => Err(Error::new_from_pos(
+            ErrorVariant::CustomError {
+                message: "call limit reached".to_owned(),
+            },
+            Position::new_internal(input, state.attempt_pos),
+        )),
         Ok(state) => {
             let len = state.queue.len();
             Ok(new(Rc::new(state.queue), input, None, 0, len))
